@@ -128,7 +128,7 @@ theorem presCC_foldTargets (k : MKey) (isAug : Bool) : ∀ (l : List Bytes) (acc
   | cons x r ih => intro acc; unfold foldTargets; exact pres_bind (presCC_markTarget k isAug acc x) (fun a => ih a)
 
 theorem CC.markImpl {s : Ctx} (h : CC c t n s) (k : MKey) : CC c t n (markImpl k s) :=
-  (h.upd k _).same rfl rfl rfl
+  CC.tick _ ((h.upd k _).same rfl rfl rfl)
 
 theorem presCC_implementCore : ∀ fuel k, Pres (CC c t n) (implementCore fuel k) := by
   intro fuel
@@ -165,7 +165,8 @@ theorem presCC_implementCore : ∀ fuel k, Pres (CC c t n) (implementCore fuel k
               · exact presCC_hasCompiledImportR _ _
 
 theorem CC.setFeatsPrim {s : Ctx} (h : CC c t n s) (k : MKey) (arg : FeatArg) : CC c t n (setFeatsPrim k arg s) := h.upd k _
-theorem CC.setFeatsFlag {s : Ctx} (h : CC c t n s) (k : MKey) (arg : FeatArg) : CC c t n (setFeatsFlag k arg s) := h.upd k _
+theorem CC.setFeatsFlag {s : Ctx} (h : CC c t n s) (k : MKey) (arg : FeatArg) : CC c t n (setFeatsFlag k arg s) :=
+  CC.tick _ (h.upd k _)
 
 theorem presCC_implement (k : MKey) (arg : FeatArg) : Pres (CC c t n) (implement k arg) := by
   unfold implement
@@ -190,6 +191,13 @@ theorem presCC_setImplementedInner (k : MKey) (arg : FeatArg) : Pres (CC c t n) 
         · exact pres_modS fun _ h => h.setFeatsFlag k arg
         · exact pres_pure _
     · exact pres_bind (presCC_implement k arg) (fun _ => pres_pure _)
+
+theorem presCC_compileIfNot (st : Bool × List MKey) (k : MKey) : Pres (CC c t n) (compileIfNot st k) := by
+  unfold compileIfNot
+  refine pres_getBind' fun s => ?_
+  split
+  · exact pres_bind (presCC_compileChecked _) (fun _ => pres_pure _)
+  · exact pres_pure _
 
 theorem presCC_unresLoop : ∀ fuel work done, Pres (CC c t n) (unresLoop fuel work done) := by
   intro fuel
@@ -225,9 +233,9 @@ theorem presCC_unresLoop : ∀ fuel work done, Pres (CC c t n) (unresLoop fuel w
                     · exact pres_pure _
                   · split
                     · exact pres_pure _
-                    · refine pres_getBind' fun s' => ?_
+                    · refine pres_bind (presCC_compileIfNot _ _) (fun st1 => pres_getBind' fun s' => ?_)
                       split
-                      · exact pres_bind (presCC_compileChecked _) (fun _ => pres_pure _)
+                      · exact pres_foldlS (fun st k => presCC_compileIfNot st k) _
                       · exact pres_pure _
       · obtain ⟨rec, extra⟩ := r
         dsimp only
@@ -320,7 +328,7 @@ theorem presCC_parse : ∀ fuel,
           split
           · exact pres_pure _
           · split
-            · exact pres_attempt (ihIn _ _)
+            · exact pres_attemptLoad _ (ihIn _ _)
             · exact pres_pure _
       · unfold circularCheck
         refine pres_getBind' fun s1 => ?_
